@@ -12,8 +12,9 @@ EXTENDS Parsers, Json, IOUtils
 
 Data == JsonDeserialize(IOEnv.TRACE_FILE)
 Recs == Data.recs
-TraceColorNames == {Data.names[i] : i \in 1..Len(Data.names)}
-TraceThemeNames == {Data.theme[i] : i \in 1..Len(Data.theme)}
+\* (Range(f) evaluates its argument once; writing {Data.names[i] : i \in ...} would re-read the file for every i)
+TraceColorNames == Range(Data.names)
+TraceThemeNames == Range(Data.theme)
 
 VARIABLES tid
 vars == <<tid>>
